@@ -752,6 +752,12 @@ func c43Part1(r *mc.Run) {
 		}
 		run(cases, netPk)
 	}
+	// observation only (constructed, not parsed, so outside the statement): the printed form of an ICMP protocol
+	// predicate is not accepted by the grammar.
+	icmp := pktcls.NewCondIPv4(&pktcls.IPv4MatchProtocol{Protocol: 1}).String()
+	_, icmpErr := pktcls.BuildClassTree(icmp)
+	r.Extra["observation_constructed_protocol_1_prints_as"] = icmp
+	r.Extra["observation_that_text_parses"] = icmpErr == nil
 	r.Extra["part1_net_cases"] = len(bases) * 33 * 2
 	r.Extra["part1_leaf_packet_matches"] = matched.Load()
 	r.Extra["part1_leaf_packet_nonmatches"] = unmatched.Load()
